@@ -37,4 +37,26 @@ PROPS = {
         "assumptions": ["the two excluded RLE-16 corner constructs are outside 'conformant encoding' for this check (DESIGN 3, C09)"],
         "floor": {"quick": 100000, "thorough": 1000000},
     },
+    "C13": {
+        "modes": ["dbg", "rel"],
+        "level": "exploration",
+        "technique": "runtime monitoring: recording fragmenting transport + by-construction frame oracle; payload, kind, flags and exact byte consumption compared after every read",
+        "level_text": "The real tpkt::Client::read and x224::Client::read are driven over a transport that holds a concatenation of specified frames and hands bytes out per a schedule (1-byte dribble, fixed chunks 2..9, random splits, a split at every header offset); after every read the returned kind/flags/payload and the transport's consumed-byte counter are compared with the frame's specification. Thorough sweeps every TPKT length 0..65535 and every fast-path length in both forms; every action byte is covered in both tiers.",
+        "level_note": "Trusted: the frame builder (TPKT: 03 pad len16be; fast-path: action, 1- or 2-byte length incl. header). At the X.224 level slow-path payloads without a valid 3-byte data header may be rejected (outcome not constrained, consumption still is). Frames below their header size must be the last of a sequence (the stream is unsynchronised afterwards).",
+        "rule": ("cases = (sequence of frames, read schedule, level tpkt|x224); classes: TPKT declared-length sweep, fast-path short form: all 128 lengths x all action bytes, fast-path long-form length sweep, splits at every header offset, random sequences of 1..50 frames with payload sizes around 0, 127/128, 1500 and up to 6000; each followed by stamped frames so over-reads are visible. distinct = hash(frames, schedule, level); non-trivial when the stream has >= 3 bytes."),
+        "assumptions": ["the transport never returns 0 before end of stream and never fails (read errors are not part of this property)"],
+        "exhaustive": {"quick": False, "thorough": True},
+        "floor": {"quick": 20000, "thorough": 500000},
+    },
+    "C14": {
+        "modes": ["dbg", "rel"],
+        "level": "fault_enumeration",
+        "technique": "runtime monitoring: adversarial recording stream (short-write schedules, one injected fault at a chosen byte position) + by-construction frame oracle on the accepted bytes",
+        "level_text": "Link::write, tpkt::Client::write and x224::Client::write are called on the real code over a stream that accepts at most cap_i bytes per call and raises one fault (hard error of six kinds, a transient EINTR, or Ok(0)) once a chosen number of bytes has been accepted - at every byte position for frames up to 70 bytes and sampled positions above. Ok requires the accepted bytes to equal the specified frame exactly; Err is allowed only when a fault fired or the payload cannot be framed in 16 bits. Sequences of 2..6 messages on one client expose state carried between messages. Thorough sweeps all payload lengths 0..70000 at the three levels.",
+        "level_note": "Trusted: the frame specification (TPKT header 03 00 len16be, X.224 data header 02 F0 80). After a reported error the sequence stops (the connection is dead).",
+        "rule": ("cases = (level, payload lengths of successive messages on one client, write-cap schedule, fault kind/position/message index); classes: length sweep with boundaries 0..300, 65500..65600, powers of two +-2; fault at every byte position of small frames; sampled fault positions in frames up to 66000 bytes; message sequences. distinct = hash of the case descriptor; every case is non-trivial (the stream observes at least the call)."),
+        "assumptions": ["a transient EINTR may be retried or reported; both are accepted, silently dropping bytes is not"],
+        "exhaustive": {"quick": False, "thorough": True},
+        "floor": {"quick": 20000, "thorough": 500000},
+    },
 }
